@@ -52,12 +52,12 @@ impl Desc {
 }
 
 pub fn descriptions() -> Vec<Desc> {
-    let ips = ["10.0.0.1", "192.168.7.9", "fe80::1"];
+    let ips = ["10.0.0.1", "192.168.7.9", "fe80::1", "::ffff:10.0.0.1"];
     let ports = [0u16, 80, 8080];
     let long_entry = "L".repeat(255);
     let mut out = Vec::new();
     for name in ["a", "b1", "x-y"] {
-        for im in 0..8u8 {
+        for im in 0..16u8 {
             for pm in 0..8u8 {
                 for k in 0..4u8 {
                     for j in 0..2u8 {
@@ -246,7 +246,7 @@ pub fn check_escape(s: &str) -> Vec<Finding> {
 }
 
 pub fn run(ctx: &Ctx) {
-    ctx.set_rule("3072 instance descriptions (3 names x all subsets of 3 addresses x all subsets of 3 ports x 16 attribute maps incl. absent/empty/non-empty values, a value containing '=', a 255-byte entry) each announced through the real path (into_records, announce-shaped packet, compressed bytes, parse, add_response_to_resources with and without a discovery channel) and read back through the channel and the get_known_services computation; announcement histories of depth <= 3 over a 7-event menu (two peers, identical re-announcement, the discoverer's own instance, records owned by the service name, a foreign service, a look-alike service name); escape/unescape over all strings of length <= 8 over {a,'.','\\'}. non-trivial = description has at least one address, port or attribute / history has a peer event");
+    ctx.set_rule("6144 instance descriptions (3 names x all subsets of 4 addresses incl. an IPv4-mapped IPv6 address x all subsets of 3 ports x 16 attribute maps incl. absent/empty/non-empty values, a value containing '=', a 255-byte entry) each announced through the real path (into_records, announce-shaped packet, compressed bytes, parse, add_response_to_resources with and without a discovery channel) and read back through the channel and the get_known_services computation; announcement histories of depth <= 3 over a 7-event menu (two peers, identical re-announcement, the discoverer's own instance, records owned by the service name, a foreign service, a look-alike service name); escape/unescape over all strings of length <= 8 over {a,'.','\\'}. non-trivial = description has at least one address, port or attribute / history has a peer event");
     ctx.assume("the announce-shaped packet mirrors ServiceDiscovery::announce: all instance records as answers, address records repeated as additional when an SRV record is present; the receiving store is initialised as ServiceDiscovery::new does (PTR at the service name + own instance records, authoritative)");
     let descs = descriptions();
     let chunks: Vec<&[Desc]> = descs.chunks(32).collect();
@@ -264,7 +264,7 @@ pub fn run(ctx: &Ctx) {
             }
         }
     });
-    ctx.space("single announcements: 3072 instance descriptions x {with channel, without}", descs.len() as u64, "complete");
+    ctx.space("single announcements: 6144 instance descriptions x {with channel, without}", descs.len() as u64, "complete");
     ctx.sample(json!({"kind": "history", "events": [Event::Peer(descs[descs.len() / 2 + 7].clone())]}));
     // histories
     let d1 = descs.iter().find(|d| d.name == "a" && d.ips.len() == 2 && d.ports.len() == 2 && d.attrs.len() == 2).unwrap().clone();
